@@ -9,21 +9,24 @@ package dns
 //@ func isSOAFirst [C15]
 //@   opt no-safety
 //@   requires in != nil
-//@   ensures def: ret0 ==> len(in.Answer) > 0 && hdr(in.Answer[0]).Rrtype == 6
+//@   ensures def: ret0 == (len(in.Answer) > 0 && hdr(in.Answer[0]).Rrtype == 6)
 //@   pure
 //@ func isSOALast [C15]
 //@   opt no-safety
 //@   requires in != nil
-//@   ensures def: ret0 ==> len(in.Answer) > 0 && hdr(in.Answer[len(in.Answer)-1]).Rrtype == 6
+// (nothing else decides: an SOA in last place ends the transfer whatever its owner is spelled like)
+//@   ensures def: ret0 == (len(in.Answer) > 0 && hdr(in.Answer[len(in.Answer)-1]).Rrtype == 6)
 //@   pure
 
 // every envelope is verified whenever a TSIG provider is configured: success implies the verification of
 // this very envelope returned nil
-//@ func (*Transfer).ReadMsg [C15 C11]
+//@ func (*Transfer).ReadMsg [C15 C11 C12:readerr]
 //@   opt no-safety
 //@   requires t != nil
 //@   exit verified: ret1 == nil && ret0 != nil && callres("tsigProvider") != nil ==> called("TsigVerifyWithProvider") && callres("TsigVerifyWithProvider") == nil
 //@   exit some: ret1 == nil ==> ret0 != nil
+// an error of the read (a frame cut short by EOF) is not lost when the octets that did arrive happen to decode
+//@   exit readerr: callres("Read", 1) != nil && callres("tsigProvider") == nil ==> ret1 != nil [C12 C15]
 // ... over the octets as received, with the stored request MAC and the transfer's timers-only mode
 //@   callsite "TsigVerifyWithProvider" chain: same(arg0, p) && arg1 == tp && arg2 == t.Conn.tsigRequestMAC && arg3 == t.tsigTimersOnly
 
